@@ -36,9 +36,10 @@ C01_Defs(b0, b1, ru) ==
     \/ n \in Defs(RootOf(b1)) /\ SameMeaning(b0, DefPos(n), b1, DefPos(n))
     \/ ru /\ n \notin Defs(RootOf(b1)) /\ DefPos(n) \notin Targeted(RootOf(b1))
 MarkerPaths(doc) == { p \in Paths(doc) : HasAttr(At(doc, p), "x-go-gen-location") }
+\* (a marker anywhere INSIDE a new definition is part of that addition: a named schema merged back into a new definition keeps its marker)
 C01_Marker(b0, b1) ==
   \A p \in MarkerPaths(RootOf(b1)) :
-    \/ TopLevelDef(p) /\ p[2] \notin Defs(RootOf(b0))
+    \/ Len(p) >= 2 /\ p[1] = "definitions" /\ p[2] \notin Defs(RootOf(b0))
     \/ Has(RootOf(b0), p) /\ HasAttr(At(RootOf(b0), p), "x-go-gen-location")
 C01(b0, b1, ru) ==
   /\ C01_Paths(b0, b1) /\ C01_Root(b0, b1) /\ C01_Shared(b0, b1, ru) /\ C01_Defs(b0, b1, ru) /\ C01_Marker(b0, b1)
